@@ -80,6 +80,7 @@ J gen(uint64_t seed, bool thorough) {
     double sum = 0; for (int g = 0; g < nb; g++) { sp.h_ref.push_back(round3(r.uniform(0.0, 1.0))); sum += sp.h_ref.back(); }
     if (sum == 0) { sp.h_ref[0] = 1.0; sum = 1.0; }
     if (r.chance(0.5)) { for (double &v : sp.h_ref) v /= sum * sp.h_width; }   // already of unit integral (to the 12 digits of the text), or not
+    else if (std::fabs(sum * sp.h_width - 1.0) < 0.05) { for (double &v : sp.h_ref) v = round3(v * 1.5 + 0.001); }   // (clearly not normalised: the implementation only rescales beyond a deviation of 1e-3)
     { std::vector<double> txt; for (double v : sp.h_ref) txt.push_back(strtod(num(v).c_str(), nullptr)); sp.h_ref = txt; }
     sp.h_documented_scale = r.chance(0.03);
     body = "histogramRestraint {\n  name r0\n  colvars " + join_names(cvs) + "\n  lowerBoundary " + num(sp.h_lower) + "\n  upperBoundary " + num(sp.h_lower + nb * sp.h_width) + "\n  width " + num(sp.h_width) + "\n" +
